@@ -1,7 +1,8 @@
 """C03 — events reach their owner; loop ends only for stated reasons; loop == dispatch (offline oracle, plain build)."""
 from vf import gen, corecheck as cc, framework as fw, model_events
 
-RULE = ("sources profile (pipes/eventfds, timers, signals, tasks; 1-100 descriptors ready in one poll batch; every callback leaves a "
+RULE = ("[extra profiles: oneshot_burst (a one-shot subscription fires once however many matching messages are in flight), shared_signal (two modules poll one signal + one-shot descriptors ready in the same batch), fd_error (write end of a pipe whose reader is gone), signal_vs_task_thread, task_queued_at_quit (known finding)] "
+        "sources profile (pipes/eventfds, timers, signals, tasks; 1-100 descriptors ready in one poll batch; every callback leaves a "
         "scripted errno: 0, EINTR, EAGAIN, EIO, ENOENT, EBADF, EPIPE, random 1..133; pause/stop/quit before, inside and after "
         "batches) plus the messaging profile; each scenario runs under the blocking loop and as a dispatch loop. Oracle: an event's "
         "(kind, key, user-data token) must belong to a source its module registered; a one-shot source fires once; every token the "
